@@ -44,7 +44,10 @@ LOOKALIKE = ['urn:ietf:params:foo:netconf:capability:a:b', 'http://example.com/n
              'urn:ietf:params:netconf:', ':netconf:', '', ':', 'urn:ietf:params:xml:ns:netconf:base', 'urn:ietf:params:netconf:base:',
              'urn:ietf:params:netconf:capability:base:1.0', 'urn:ietf:params:netconf:base:1.0:capability:zz:9',
              'http://tail-f.com/ns/netconf/actions/1.0', 'urn:ietf:params:xml:ns:netconf:base:1.0:capability:',
-             'urn:ietf:params:netconf:capability:', 'urn:ietf:params:xml:ns:netconf:capability:w']
+             'urn:ietf:params:netconf:capability:', 'urn:ietf:params:xml:ns:netconf:capability:w',
+             'urn:ietf:params:xml:ns:netconf:notification:1.0', 'urn:ietf:params:xml:ns:netconf:notification:1.0?module=notifications&revision=2008-07-14',
+             'urn:ietf:params:xml:ns:netconf:partial-lock:1.0', 'urn:ietf:params:netconf:monitoring', 'urn:ietf:params:netconf:candidate:1.0',
+             'urn:ietf:params:xml:ns:netconf:capability:foo?x=a:b', 'urn:ietf:params:netconf:capability:with-defaults:1.0?basic-mode=explicit']
 
 
 def gen_uri(rng):
@@ -83,8 +86,13 @@ def gen_case(rng):
         key = rng.choice(sorted(cand))
     elif r < 0.8:
         key = ':' + rng.choice(NAMES) + rng.choice(['', ':' + rng.choice(VERS)])
-    elif uris and r < 0.9:
+    elif uris and r < 0.86:
         key = rng.choice(uris).split('?')[0]
+    elif uris and r < 0.93:
+        # shorthands made from ANY two adjacent segments of an advertised URI (over-acceptance probes)
+        segs = rng.choice(uris).split(':')
+        i = rng.randrange(len(segs))
+        key = ':' + segs[i] + (':' + segs[i + 1] if i + 1 < len(segs) and rng.random() < 0.5 else '')
     else:
         key = rng.choice([gen_uri(rng), '', ':', ':capability', ':netconf', ':base:1.0', ':base:1.1'])
     return {'uris': uris, 'key': key}
@@ -111,11 +119,17 @@ class C08(Check):
             {'uris': ['urn:ietf:params:netconf:capability:url:1.0?scheme=http,ftp'], 'key': ':url'},
             {'uris': [], 'key': ':base'},
         ]
-        return fixed + [gen_case(rng) for _ in range(n)]
+        abbr = [{'kind': 'abbr', 'uri': u} for u in LOOKALIKE] + [{'kind': 'abbr', 'uri': gen_uri(rng)} for _ in range(n // 4)]
+        return fixed + [gen_case(rng) for _ in range(n)] + abbr
 
     def run_impl(self, case):
         import logging; logging.disable(logging.CRITICAL)
-        from ncclient.capabilities import Capabilities
+        from ncclient.capabilities import Capabilities, Capability
+        if case.get('kind') == 'abbr':
+            try:
+                return {'abbr': sorted(Capability.from_uri(case['uri']).get_abbreviations())}
+            except Exception as e:
+                return {'abbr': 'exc:' + type(e).__name__}
         try:
             caps = Capabilities(case['uris'])
         except Exception as e:
@@ -137,9 +151,13 @@ class C08(Check):
         return res
 
     def model_lines(self, case):
+        if case.get('kind') == 'abbr':
+            return ['caps abbrev ' + hexs(case['uri'].split('?')[0])]
         return ['caps get %s %s' % (hlist(hexs(u) for u in case['uris']), hexs(case['key']))]
 
     def model_obs(self, case, outs):
+        if case.get('kind') == 'abbr':
+            return {'abbr': sorted(unhexs(x) for x in unhlist(outs[0]))}
         t = outs[0].split(' ')
         if t[0] == 'found':
             ps = [p.split('=') for p in unhlist(t[2])]
@@ -153,6 +171,11 @@ class C08(Check):
         return res
 
     def oracle(self, case, io):
+        if case.get('kind') == 'abbr':
+            want = sorted(spec_abbrev(case['uri']))
+            if io['abbr'] != want:
+                return ('C08:abbreviations', 'URI %r has shorthands %r, the URN grammar gives %r' % (case['uri'], io['abbr'], want))
+            return None
         uris, key = case['uris'], case['key']
         if io['r'].startswith('ctor-exc') or io['r'].startswith('exc:') or str(io.get('in')).startswith('exc:'):
             return ('C08:non-keyerror-exception', 'lookup raised %s (only KeyError is documented) for key %r in %r' % (io['r'], key, uris))
@@ -177,12 +200,16 @@ class C08(Check):
         return None
 
     def nontrivial(self, case, io):
+        if case.get('kind') == 'abbr':
+            return bool(io['abbr'])
         return bool(case['uris']) and (io['r'] == 'found' or any(u.startswith('urn:ietf:params') for u in case['uris']))
 
     def search(self, tier, rng, broken):
         return [gen_case(rng) for _ in range(60000)]
 
     def shrink(self, case, still_fails):
+        if case.get('kind') == 'abbr':
+            return case
         cur = case
         changed = True
         while changed:
